@@ -40,3 +40,23 @@ pub(crate) unsafe fn set_slots_raw<'e, U>(
     let old = std::mem::replace(&mut ctx.values, unsafe { Box::from_raw(slots) });
     std::mem::forget(old);
 }
+
+/// A context over `scheme` whose slot box AND list-matcher box point at caller-owned TYPED storage
+/// (local arrays), built by direct struct construction instead of `ExecutionContext::new_with`
+/// (whose `vec![None; n]` is a symbolic-size allocation - trap 1 - and whose results are untyped heap
+/// objects to CBMC, see `set_slots_raw`).  `new_with` itself is the subject of the C17 obligation
+/// `context_list_matchers__routing_by_index`.  The caller must `mem::forget` the context (and
+/// anything its boxes are moved into).  Constructs a pre-state; not a model.
+pub(crate) unsafe fn context_over<'e, U>(
+    scheme: &Scheme,
+    slots: *mut [Option<LhsValue<'e>>],
+    matchers: *mut [Box<dyn ListMatcher>],
+    user_data: U,
+) -> ExecutionContext<'e, U> {
+    ExecutionContext {
+        scheme: scheme.clone(),
+        values: unsafe { Box::from_raw(slots) },
+        list_matchers: unsafe { Box::from_raw(matchers) },
+        user_data,
+    }
+}
